@@ -66,7 +66,12 @@ Seeds ==
      <<"ratbig", 0, 1, 0, 0, 0>>, <<"ratbig", 0, 2, 0, 0, 0>>,
      \* multiples and neighbours of the NumHash modulus 2^127 - 1 (the residue must be taken, not the number itself)
      <<"hashmod", 1, 1, 2, 127, -1>>, <<"hashmod", 0, 2, 2, 127, -2>>, <<"hashmod", 1, 3, 2, 127, -3>>, <<"hashmod", 0, 1, 2, 127, -2>>,
-     <<"hashmod", 0, 2, 2, 127, -1>>, <<"hashmod", 0, 1, 2, 254, -1>> >>
+     <<"hashmod", 0, 2, 2, 127, -1>>, <<"hashmod", 0, 1, 2, 254, -1>>,
+     \* a fraction next to an integer of the same size (the log2 estimates cannot separate them: the exact comparison
+     \* decides), both signs: 2^23 + 1/2 between 2^23 and 2^23 + 1; 12345678.5 between 12345678 and 12345679
+     <<"nearint", 0, 16777217, 2, -1, 0>>, <<"nearint", 1, 16777217, 2, -1, 0>>, SInt("nearint", 0, 8388608), SInt("nearint", 0, 8388609),
+     SInt("nearint", 1, 8388608), <<"nearint", 1, 123456785, 10, -1, 0>>, <<"nearint", 0, 123456785, 10, -1, 0>>,
+     SInt("nearint", 0, 12345678), SInt("nearint", 0, 12345679), SInt("nearint", 1, 12345679) >>
 NSeeds == Len(Seeds)
 \* significands too wide for a native literal, by (negative) code
 Wide(m) == CASE m = -1 -> Sub(P2(53), One) [] m = -2 -> P2(53) [] m = -3 -> Tenth53 [] m = -4 -> Sub(Tenth53, One) [] OTHER -> FromNat(m)
@@ -140,7 +145,7 @@ NSpecials == Len(Specials)
 VARIABLES phase, a, r
 vars == <<phase, a, r>>
 \* a in 1..NSeeds: a seed; a in NSeeds+1 .. NSeeds+NSpecials: a special
-Kept(i) == i > NSeeds \/ Stride = 1 \/ i <= 6 \/ (i + Seed) % Stride = 0 \/ Seeds[i][1] \in {"hashmod", "2^127", "rat", "half"}
+Kept(i) == i > NSeeds \/ Stride = 1 \/ i <= 6 \/ (i + Seed) % Stride = 0 \/ Seeds[i][1] \in {"hashmod", "2^127", "rat", "half", "nearint"}
 Init == phase = "pick" /\ a \in {i \in 1..(NSeeds + NSpecials) : Kept(i)} /\ r = 0
 Pick == /\ phase = "pick" /\ phase' = "done" /\ UNCHANGED a
         /\ r' \in (IF a <= NSeeds THEN 1..NRend ELSE {1})
